@@ -9,6 +9,7 @@ import (
 	"errors"
 	"io"
 	"net/http"
+	"sync"
 	"time"
 
 	jsonrpc "github.com/filecoin-project/go-jsonrpc"
@@ -413,4 +414,64 @@ func HarnessHTTPAtMostOnce() {
 	verif.Assert(nerr == nil, "notification-returns-nil")
 	verif.Assert(h.execs[tok+1] <= 1, "notification-at-most-once")
 	verif.Reach("http-at-most-once-done")
+}
+
+// NH is a small real handler for the notification harness.
+type NH struct {
+	mu   sync.Mutex
+	runs map[string]int
+}
+
+func (h *NH) count(k string) {
+	h.mu.Lock()
+	h.runs[k]++
+	h.mu.Unlock()
+}
+func (h *NH) Ok(a int64) int64 { h.count("ok"); return a }
+func (h *NH) Boom(a int64)     { h.count("boom"); panic("boom") }
+
+// HarnessFailingNotifications (C04): a notification never yields a response —
+// also when it fails (unknown method, wrong arity, undecodable argument,
+// panicking handler). After each such notification the next frame the peer
+// sees is the answer to its own later id-bearing request; a handler that did
+// start ran exactly once.
+func HarnessFailingNotifications() {
+	h := &NH{runs: map[string]int{}}
+	srv := jsonrpc.NewServer()
+	srv.Register("N", h)
+	pc := verif.DialRaw(srv, nil)
+	notifs := []string{
+		`{"jsonrpc":"2.0","method":"N.Ok","params":[1]}`,
+		`{"jsonrpc":"2.0","method":"N.Nope","params":[1]}`,
+		`{"jsonrpc":"2.0","method":"N.Ok","params":[1,2]}`,
+		`{"jsonrpc":"2.0","method":"N.Ok","params":["x"]}`,
+		`{"jsonrpc":"2.0","method":"N.Boom","params":[1]}`,
+		`{"jsonrpc":"2.0","id":null,"method":"N.Boom","params":[1]}`,
+	}
+	k := verif.Choice("notification", len(notifs))
+	pc.Send([]byte(notifs[k]))
+	verif.Quiesce()
+	pc.Send([]byte(`{"jsonrpc":"2.0","id":77,"method":"N.Ok","params":[5]}`))
+	b, ok := pc.Recv()
+	verif.Assert(ok, "connection-stays-up")
+	var r struct {
+		ID     interface{} `json:"id"`
+		Result *int64      `json:"result"`
+	}
+	verif.Assert(json.Unmarshal(b, &r) == nil, "frame-is-json")
+	id, _ := r.ID.(float64)
+	verif.Assert(id == 77 && r.Result != nil && *r.Result == 5, "a-notification-yields-no-response-frame")
+	h.mu.Lock()
+	if k == 4 || k == 5 {
+		verif.Assert(h.runs["boom"] == 1, "notification-handler-ran-exactly-once")
+	}
+	wantOk := 1
+	if k == 0 {
+		wantOk = 2
+	}
+	verif.Assert(h.runs["ok"] == wantOk, "only-well-formed-notifications-run-their-handler")
+	h.mu.Unlock()
+	pc.CloseGraceful()
+	verif.Quiesce()
+	verif.Reach("failing-notifications-done")
 }
